@@ -1,6 +1,7 @@
 package rules
 
 import (
+	"gfs3check/internal/oblig"
 	"go/token"
 	"strings"
 
@@ -54,7 +55,7 @@ func C02(r *core.Run) {
 		"(R02.2) every Backend/VersionedBackend method of every implementation can return the error code its contract mandates (NoSuchBucket, NoSuchKey, BucketAlreadyExists, BucketNotEmpty, NoSuchVersion); " +
 		"(R02.3) no delete operation can return NoSuchKey (idempotence); (R02.4) every ErrorCode used has an explicit HTTP status and the five codes of the property map to 404/409, every handler error reaches httpError, ensureErrorResponse is total; " +
 		"(R02.5) CopyObject wires source to destination with the fetched object's contents, size and hash; (R02.6) bucket removal happens only on the non-empty-test's empty arm; " +
-		"(R01.2, shared) every PutObject replaces the stored bytes by one consumption of the input (fs: truncating open of the object path); (R10.7, shared) object deletion is never recursive; (R02.7) deleting a nested key on the fs backends prunes the directories it leaves empty, so an emptied bucket can be deleted. (R02.8) the existence check that may auto-create a bucket is applied only to the addressed bucket; R02.7 also requires the emptiness test to be of the very directory that is removed. (R02.9) the fs delete path does not hand a directory to Remove. (R02.10) the front end and the fs/bolt backends keep no serving-time copy of the store's state in process memory (no remembered directory, bucket or answer). (R02.11) a bolt cursor deletes only after the key it landed on was compared equal with the key sought. (R01.12) error discipline in path form: no call's error reaches a return untested / not handed back, and no path that found it non-nil ends in success without passing it on or testing it further."
+		"(R01.2, shared) every PutObject replaces the stored bytes by one consumption of the input (fs: truncating open of the object path); (R10.7, shared) object deletion is never recursive; (R02.7) deleting a nested key on the fs backends prunes the directories it leaves empty, so an emptied bucket can be deleted. (R02.8) the existence check that may auto-create a bucket is applied only to the addressed bucket; R02.7 also requires the emptiness test to be of the very directory that is removed. (R02.9) the fs delete path does not hand a directory to Remove. (R02.10) the front end and the fs/bolt backends keep no serving-time copy of the store's state in process memory (no remembered directory, bucket or answer). (R02.11) a bolt cursor deletes only after the key it landed on was compared equal with the key sought. (R01.12) error discipline in path form: no call's error reaches a return untested / not handed back, and no path that found it non-nil ends in success without passing it on or testing it further. (R02.12) the fs delete path prunes from the very path it removed, deletes the metadata record after the file, and pruning climbs on after every successful Remove. (R02.13) the copy handler copies the pair it examined to the pair it was asked for."
 	r.NotDecided = "read-your-writes, overwrite/copy value semantics, agreement of whole responses with a reference model, auto-bucket behaviour"
 	rule021(r)
 	rule022(r)
@@ -71,6 +72,9 @@ func C02(r *core.Run) {
 	rule029(r)
 	rule0210(r, "C02")
 	rule0211(r)
+	rule0212(r)
+	rule0213(r)
+	rule085(r, oblig.NewCtx(r.P))
 	rule0112(r, "C02")
 	rule0113(r)
 }
@@ -866,4 +870,124 @@ func containerOwner(r *core.Run, v ssa.Value, depth int) string {
 		}
 	}
 	return ""
+}
+
+// rule0212 — the fs delete path is one coherent sequence on one path.
+func rule0212(r *core.Run) {
+	r.Rule("R02.12", "in each fs backend's deleteObjectLocked (a) the path handed to pruneEmptyDirs is the very path whose file was removed (same expression: for the multi-bucket backend it includes the bucket directory — a bare key would be resolved against the directory that holds all buckets); (b) the metadata record is deleted only after the object file's Remove (a crash in between leaves an orphan record, not an object the multi-bucket backend can no longer read); (c) inside pruneEmptyDirs a return that follows the directory Remove inside the loop lies on the side where that Remove's error is non-nil: after a successful Remove the loop goes on to the parent")
+	for _, impl := range []string{"s3afero.(*MultiBucketBackend)", "s3afero.(*SingleBucketBackend)"} {
+		fn := mustFunc(r, impl+".deleteObjectLocked")
+		if fn == nil {
+			continue
+		}
+		name := fname(r, fn)
+		var rm, prune, delMeta *ssa.Call
+		core.Instrs(fn, func(in ssa.Instruction) {
+			c, ok := in.(*ssa.Call)
+			if !ok {
+				return
+			}
+			switch cn := r.P.CalleeName(c); {
+			case cn == "invoke:github.com/spf13/afero.Fs.Remove":
+				ps := r.P.SliceOf(c.Call.Args[0], core.SliceOpts{Depth: -1})
+				if !ps.Has("call:path.Dir") && !ps.Has("call:path/filepath.Dir") {
+					rm = c
+				}
+			case cn == "s3afero.pruneEmptyDirs":
+				prune = c
+			case strings.HasSuffix(cn, "metaStore).deleteMeta"):
+				delMeta = c
+			}
+		})
+		if rm == nil || prune == nil || delMeta == nil {
+			r.Unresolved("R02.12: Remove / pruneEmptyDirs / deleteMeta not all found in %s", name)
+			continue
+		}
+		same := sameValue(r, stripPathConv(r, prune.Call.Args[2]), stripPathConv(r, rm.Call.Args[0]), 0)
+		r.Check(same, "R02.12", key(name, "prune starts at the removed file's path"), pos(r, prune), "pruneEmptyDirs(fs, root, <path that was removed>)",
+			"pruneEmptyDirs is handed another path than the one whose file was just removed: in the multi-bucket backend a bare key is resolved against the directory of all buckets (an empty bucket named like the key's first segment is deleted; the key's own directories are left behind)")
+		r.Check(core.Dominates(rm, delMeta), "R02.12", key(name, "metadata record deleted after the object file"), pos(r, delMeta), "Remove(object) first, then deleteMeta",
+			"the metadata record is deleted before (or without) the object file's Remove: a failure or crash in between leaves an object file without its record, which the multi-bucket backend answers with 500 on GET/HEAD/LIST")
+	}
+	pe := mustFunc(r, "s3afero.pruneEmptyDirs")
+	if pe == nil {
+		return
+	}
+	var drm *ssa.Call
+	core.Instrs(pe, func(in ssa.Instruction) {
+		if c, ok := in.(*ssa.Call); ok && r.P.CalleeName(c) == "invoke:github.com/spf13/afero.Fs.Remove" {
+			drm = c
+		}
+	})
+	if drm == nil {
+		r.Unresolved("R02.12: pruneEmptyDirs no longer removes directories")
+		return
+	}
+	errv := core.ErrorResult(drm)
+	bad := ""
+	for _, ret := range core.Returns(pe) {
+		if !core.Reaches(drm, ret) {
+			continue
+		}
+		// returns that end the function after the loop are fine: only those reachable from the Remove
+		// without going round the loop again
+		loopHead := drm.Block()
+		_ = loopHead
+		nonNil := false
+		for _, g := range core.GuardsOf(ret) {
+			for a := range core.ValueAliases(errv) {
+				if isNil, ok := core.ErrNilFact(g, a); ok && !isNil {
+					nonNil = true
+				}
+			}
+		}
+		if nonNil {
+			continue
+		}
+		// reachable from the Remove without passing the ReadDir of the next round?
+		if core.ReachesAvoiding(drm, ret, func(x ssa.Instruction) bool {
+			c, ok := x.(*ssa.Call)
+			return ok && r.P.CalleeName(c) == "github.com/spf13/afero.ReadDir"
+		}) {
+			if ev := returnedErrors(pe)[ret]; ev != nil && !definitelyNil(r, core.BlockLocalLoad(ev)) {
+				bad = pos(r, ret)
+			}
+		}
+	}
+	r.Check(bad == "", "R02.12", key(fname(r, pe), "a successful Remove goes on to the parent"), pos(r, drm), "return after Remove only when it failed",
+		"pruneEmptyDirs can return (at "+bad+") right after removing one directory although the Remove succeeded: the parents of a deeply nested key stay behind as empty directories (phantom prefixes, BucketNotEmpty on an empty bucket)")
+}
+
+// rule0213 — the copy handler copies what it looked at, to where it was asked.
+func rule0213(r *core.Run) {
+	r.Rule("R02.13", "in the copyObject handler the (bucket, key) pair handed to Backend.CopyObject as source is the very pair HeadObject examined (both parsed from X-Amz-Copy-Source), and the destination pair is the handler's own (bucket, object) parameters: the source is not looked up in the destination bucket, nor the copy written next to the source")
+	fn := mustFunc(r, "gofakes3.(*GoFakeS3).copyObject")
+	if fn == nil {
+		return
+	}
+	name := fname(r, fn)
+	var head, cp *ssa.Call
+	core.Instrs(fn, func(in ssa.Instruction) {
+		if c, ok := in.(*ssa.Call); ok {
+			switch r.P.CalleeName(c) {
+			case "invoke:gofakes3.Backend.HeadObject":
+				head = c
+			case "invoke:gofakes3.Backend.CopyObject":
+				cp = c
+			}
+		}
+	})
+	if head == nil || cp == nil {
+		r.Unresolved("R02.13: HeadObject / CopyObject not found in %s", name)
+		return
+	}
+	bp, op := paramNamed(fn, "bucket"), paramNamed(fn, "object")
+	a := cp.Call.Args
+	h := head.Call.Args
+	okSrc := len(a) >= 4 && len(h) >= 2 && sameValue(r, core.BlockLocalLoad(a[0]), core.BlockLocalLoad(h[0]), 0) && sameValue(r, core.BlockLocalLoad(a[1]), core.BlockLocalLoad(h[1]), 0)
+	srcS := r.P.SliceOfMany([]ssa.Value{a[0], a[1]}, core.SliceOpts{Depth: -1})
+	okSrc = okSrc && srcS.Has("const:X-Amz-Copy-Source") && !srcS.HasValue(bp)
+	r.Check(okSrc, "R02.13", key(name, "source = the pair HeadObject examined"), pos(r, cp), "CopyObject(src bucket, src key, …) with the values given to HeadObject", "the source handed to CopyObject is not the (bucket, key) pair that was parsed from X-Amz-Copy-Source and examined with HeadObject: a cross-bucket copy reads another object")
+	okDst := len(a) >= 4 && bp != nil && op != nil && a[2] == ssa.Value(bp) && a[3] == ssa.Value(op)
+	r.Check(okDst, "R02.13", key(name, "destination = the addressed bucket and key"), pos(r, cp), "CopyObject(…, bucket, object, …)", "the destination handed to CopyObject is not the request's own bucket and key")
 }
